@@ -222,7 +222,9 @@ class Cron(addons.AddonMainTask, block.SBlock):
                 for blk in set().union(*self._alarms.values()):    # all blocks (if any)
                     assert hasattr(blk, 'recalc')
                     blk.recalc(nowdt)
-                index = None
+                # compute the index from the same clock reading, otherwise a wakeup time
+                # between two clock readings would be skipped
+                index = bisect.bisect_left(timetable, nowt) % tlen
                 continue
             if reload:
                 continue
